@@ -36,7 +36,17 @@ declared 2 or 3 times whose overridden declarations carry DECOY initialisers (an
 order random / sorted by name / reverse-sorted / sorted with the re-declarations at the end, 0-2 segments of the items moved into
 include_source! sources.  The LAST declaration of a name decides (its initialiser is the input; bare: the relation starts empty);
 every relation is compared (fillers: exactly the rows of the initialiser of their last declaration).  The declaration list of every such
-program is also evaluated in Pack/PackModel.v (initialisers_emitted, as written and after the stable sort_by_name of Pack/PackOrder.v)."""
+program is also evaluated in Pack/PackModel.v (initialisers_emitted, as written and after the stable sort_by_name of Pack/PackOrder.v).
+
+Family `opt` (gen/c09_dead.py): relations that NEVER receive a tuple — optional inputs of a library that this program does not fill: declared,
+no initialiser, no producing rule or only producers that cannot fire — with count / sum / min / max / negation (and the same spelled as USER
+aggregators c09_size / c09_total / c09_none) over them and downstream rules reading the results.  Logical programs: the stratified generator
+with aggregates / negations re-targeted to such relations, and a designed reachability family (blk / w inside the recursive rule and in later
+strata).  In the packagings of this family every relation without input in ALL scripts is declared BARE: no initialiser and no feeding rule
+under ascent_run! / ascent_run_par!, field never touched under ascent! / ascent_par!, bare declaration inside an include_source! library whose
+includer declares only the inputs it has.  The expected answer is the specification of the logical program: count = 0, sum = 0 and not() DO
+fire over an empty relation.  The two ascent_run! forms are also generated for every ordinary program that happens to have a relation without
+input.  Coq: Pack/PackDeadRules.v (c09_ascent_run_stratified_model, c09_dead_rules_count_sum_like_clause_refuted)."""
 import json
 import os
 
@@ -288,6 +298,8 @@ def compare_job(r, job, res, feature, pred=None):
                   features=list(feature), prog=c["prog"], inputs=c["inputs"], script=s, script_input=job["script_input"],
                   expect_flags=job["expect_flags"], nscripts=job["nscripts"], module_source=job["src"], job_id=job["id"],
                   view=[list(x) for x in rels], wo_family=bool(c.get("wo_family")))
+        if job.get("family") == "opt":
+            cs.update(family="opt")
         if job.get("family") == "big":
             cs.update(family="big", fixed_rows=job["fixed_rows"], big=job.get("big"), program=job.get("program_text", cs["program"]))
         iv = res[s] if res else None
@@ -311,6 +323,9 @@ def compare_job(r, job, res, feature, pred=None):
                         [t for t in sg[name][1] if t not in iset][:5], [t for t in iset if t not in sg[name][1]][:5], dup[:5])
                     if name in wo and c["inputs"][k].get(name):
                         what += " [%s is write-only (no rule body reads it) and starts with %d initial rows]" % (name, len(c["inputs"][k][name]))
+                    if job.get("family") == "opt":
+                        sites = c09_dead.empty_agg_sites(c["prog"], c["inputs"])
+                        what += " [%s; aggregates over relations that never get a tuple: %s]" % (job["desc"], sorted({"%s in %s" % (a, r_) for _, a, r_ in sites}))
                     if job.get("family") == "big":
                         what += " [%s]" % job["desc"]
                         if any(9 in t for t in iset):
@@ -349,7 +364,7 @@ def replay_case(path):
         return c09_attrs.replay(cs)
     if cs.get("family") == "big_model":
         return c09_big.replay_model(cs)
-    c = case_from_json(dict(prog=cs["prog"], inputs=cs["inputs"], wo_family=cs.get("wo_family")), "c09_replay")
+    c = case_from_json(dict(prog=cs["prog"], inputs=cs["inputs"], wo_family=cs.get("wo_family"), opt_family=cs.get("family") == "opt"), "c09_replay")
     results = engine_tie.run(PROP, [c], tag="c09r", spec="strat")
     r = results[0]
     mism = engine_tie.compare_case(r)
@@ -358,6 +373,8 @@ def replay_case(path):
     if "module_source" in cs:
         job = dict(id=cs["job_id"], kind=cs["packaging"], macro=cs["macro"], desc=cs.get("detail", ""), src=cs["module_source"], nscripts=cs["nscripts"],
                    script_input=cs["script_input"], expect_flags=cs["expect_flags"], rels=rels_from_json(cs["view"]) if cs.get("view") else c["prog"]["rels"])
+        if cs.get("family") == "opt":
+            job.update(family="opt")
         if cs.get("family") == "big":
             job.update(family="big", fixed_rows=cs["fixed_rows"], big=cs.get("big"), program_text=cs.get("program"))
         feats = tuple(cs.get("features", []))
@@ -467,7 +484,7 @@ def tie(tier, seed, replay):
     sample += [dict(packaging=j["kind"], macro=j["macro"], detail=j["desc"], program=j["program_text"][:2500]) for j in big_jobs[2:3]]
     sample += asamples
     return dict(evaluations=evals, distinct_nontrivial=len(distinct) + attr_stats["scripts_where_an_attribute_is_observable"],
-                rule="random logical programs (1/4 without interpreted functions, 1/2 C01-style, 1/4 stratified with aggregates / negation; plus the family `wo`: programs with initialised WRITE-ONLY relations whose initial rows are derived again, half of them with write-only relations declared `lattice`) x 2 inputs, each rendered as 14-20 packagings (base, ascent_run! / ascent_run_par! with captured locals as initialisers or in rule bodies, only the write-only relations initialised, a random part of the relations initialised, ascent_par!, include_source! start / middle / end / two / adjacent / whole, initialisers via Default, re-declarations, generic signature, all tokens re-spanned to one span by a helper proc macro (alone and with includes), measure_rule_times, generate_run_timeout with run() and run_timeout(MAX), all combined), whole crate built with and without ascent/segment-codegen; every relation compared (set of rows AND number of rows: one row per derivable tuple, one row per key of a lattice) with the specification oracle of the logical program; non-trivial = the logical program derives at least one fact on that input; distinct = distinct (packaging job, script, feature).  Family `big` (gen/c09_big.py): 6 (thorough 30) of the logical programs each rendered under ascent! / ascent_par! / ascent_run! / ascent_run_par! as a program of 21-64 relation / lattice declarations (unused filler relations with random names, 1-4 relations declared 2 or 3 times with DECOY initialisers holding an underivable tuple in the overridden declarations, declaration order random / sorted by name / reverse-sorted / sorted with the re-declarations at the end, 0-2 segments moved into include_source! sources); the last declaration decides the input of a relation; every relation compared (fillers: exactly the rows of the initialiser of their last declaration).  Family `attrs`: programs with program-level inner attributes (#![ds(eqrel | trrel | trrel_uf | ascent::rel)], measure_rule_times, generate_run_timeout, inter_rule_parallelism) x include placement (pasted, first item: part / all / two adjacent / first + later, middle, end) x signature present / absent x ascent! / ascent_par! / ascent_run! / ascent_run_par!, feature-less build; observables: plain relations (sets + row counts) vs the specification oracle of the explicit-closure program, run_timeout(Duration::MAX) compiles and returns true, per-rule part of scc_times_summary(); non-trivial there = an attribute is observable in the script (measure / timeout present, or the closure reading differs from the plain reading on that input)",
+                rule="random logical programs (1/4 without interpreted functions, 1/2 C01-style, 1/4 stratified with aggregates / negation; plus the family `wo`: programs with initialised WRITE-ONLY relations whose initial rows are derived again, half of them with write-only relations declared `lattice`) x 2 inputs, each rendered as 14-20 packagings (base, ascent_run! / ascent_run_par! with captured locals as initialisers or in rule bodies, only the write-only relations initialised, a random part of the relations initialised, ascent_par!, include_source! start / middle / end / two / adjacent / whole, initialisers via Default, re-declarations, generic signature, all tokens re-spanned to one span by a helper proc macro (alone and with includes), measure_rule_times, generate_run_timeout with run() and run_timeout(MAX), all combined), whole crate built with and without ascent/segment-codegen; every relation compared (set of rows AND number of rows: one row per derivable tuple, one row per key of a lattice) with the specification oracle of the logical program; non-trivial = the logical program derives at least one fact on that input; distinct = distinct (packaging job, script, feature).  Family `big` (gen/c09_big.py): 6 (thorough 30) of the logical programs each rendered under ascent! / ascent_par! / ascent_run! / ascent_run_par! as a program of 21-64 relation / lattice declarations (unused filler relations with random names, 1-4 relations declared 2 or 3 times with DECOY initialisers holding an underivable tuple in the overridden declarations, declaration order random / sorted by name / reverse-sorted / sorted with the re-declarations at the end, 0-2 segments moved into include_source! sources); the last declaration decides the input of a relation; every relation compared (fillers: exactly the rows of the initialiser of their last declaration).  Family `opt` (gen/c09_dead.py): 8 (thorough 24) stratified programs in which 1-2 aggregated / negated relations are optional inputs that never receive a tuple (no initialiser, no producer or only producers that cannot fire; count / sum / min / max / negation over them, downstream readers), rendered with every relation without input declared BARE under ascent_run! (initialisers / rules over captured locals for the others), ascent_run_par!, ascent! / ascent_par! (fields never touched), include_source! of a library holding the bare declarations and all rules, and with count / sum / negation spelled as user aggregators; the two ascent_run! forms also for every ordinary program with a relation without input; expected = the specification of the logical program (count = 0, sum = 0, not() holds over an empty relation).  Family `attrs`: programs with program-level inner attributes (#![ds(eqrel | trrel | trrel_uf | ascent::rel)], measure_rule_times, generate_run_timeout, inter_rule_parallelism) x include placement (pasted, first item: part / all / two adjacent / first + later, middle, end) x signature present / absent x ascent! / ascent_par! / ascent_run! / ascent_run_par!, feature-less build; observables: plain relations (sets + row counts) vs the specification oracle of the explicit-closure program, run_timeout(Duration::MAX) compiles and returns true, per-rule part of scc_times_summary(); non-trivial there = an attribute is observable in the script (measure / timeout present, or the closure reading differs from the plain reading on that input)",
                 samples=sample, distribution=dict(programs=len(results), packaging_jobs=kinds, scripts_agreeing=okc, macros=macros,
                                                   pure_programs=sum(1 for r in results if c09_pack.is_pure(r["case"]["prog"])),
                                                   with_aggregates=sum(1 for r in results if r["case"]["prog"].get("shape") == "stratified"),
@@ -480,6 +497,7 @@ def tie(tier, seed, replay):
                               "FRONT hook + gen/dl.py plan translation + Engine/Eval.v model for the base packaging; specification oracle strat_fix / naive_fix evaluated inside Coq",
                               "rustc, cargo feature resolution, macro_rules expansion and span identity are exercised, not modelled: Pack/PackModel.v states the splice / last-wins / timeout-guard logic on token lists and declaration lists",
                               "Pack/PackModel.v ascent_run_code (initialisers assigned, ONE index build, SCCs) is tied to the generated ascent_run! block on the packagings whose initialisers are the whole input (run_init, run_wo_init of programs fed by fact rules): rows compared with the model's as set + count, through the proved c09_init_is_input; lattice views are compared with the specification only (write-only lattice = one row per key holding the max of the derivable values)"],
-                assumptions=["column values are small i32 / i64; the generic packagings instantiate T with i32 or i64",
+                assumptions=["family opt: the user aggregators c09_size / c09_total / c09_none of gen/c09_dead.py are taken to mean count / sum / not (they are three one-line functions of the generated module)",
+                             "column values are small i32 / i64; the generic packagings instantiate T with i32 or i64",
                              "ascent_run! programs receive their input through initialisers or rule bodies over captured locals (the two documented ways)"],
                 extra=dict(cases_skipped_model_too_slow=nskipped, packaging_jobs=len(jobs)))
